@@ -92,3 +92,23 @@ Definition merge_exec (early : bool) (v : variant) (inuse : N -> bool) (fails : 
     if r_err r then mkm (r_fs r) (r_live r) liveU
     else let '(st2, liveU2) := unord_loop inuse fails (r_next r) unord (r_fs r) liveU in
          mkm st2 (r_live r) liveU2.
+
+(* deleteUnorderedFiles after props/C03/fix5.patch: every input is PARKED first (renamed to .init: from then on a restart
+   ignores it), then removed unless a reader still holds it; the loop stops at the first input that cannot be parked - that
+   input and all newer ones stay in the live list and on disk (a suffix of the inputs, merged again later). A failing
+   removal of a parked file is harmless. Ordinals: one attempt for the rename, one more for the removal if not in use. *)
+Fixpoint unord_rep (inuse : N -> bool) (fails : nat -> bool) (i : nat) (us : list N) (st : fs) (liveU : list N)
+  : fs * list N :=
+  match us with
+  | [] => (st, liveU)
+  | u :: rest =>
+      if fails i then (st, liveU)
+      else
+        let st1 := run_step (Mv (u, false) (u, true)) st in
+        if inuse u then unord_rep inuse fails (S i) rest st1 (lrm u liveU)
+        else
+          let st2 := if fails (S i) then st1 else run_step (Rm (u, true)) st1 in
+          unord_rep inuse fails (S (S i)) rest st2 (lrm u liveU)
+  end.
+
+Definition unord_loop_v (v : variant) := match v with Current => unord_loop | Repaired => unord_rep end.
